@@ -506,6 +506,11 @@ impl Watcher {
         )
     }
 
+    /// Identifiers of the internal mutexes, so the verification scheduler can name them in its reports.
+    pub fn verif_mutex_ids(&self) -> Vec<(&'static str, usize)> {
+        vec![("watcher.locator_cache", self.locator_cache.id())]
+    }
+
     /// Last known block height, as used for `start_block`.
     pub fn verif_height(&self) -> u32 {
         self.last_known_block_height.load(Ordering::Acquire)
